@@ -76,31 +76,35 @@ def tie_classes(ctx, exe, hn):
     for _ in range(n):
         cases.append(gen_T(rng, rng.randint(3, 28)) if rng.random() < 0.8 else gen_D(rng, rng.randint(3, 20)))
     inp = "\n".join(cases) + "\n"
-    rc0, out0 = vlib.sh([exe, "0"], input=inp, timeout=900)
-    rc1, out1 = vlib.sh([exe, "1"], input=inp, timeout=900)
+    outs = {}
+    for v in ("00", "10", "01", "11"):
+        rc, out = vlib.sh([exe, v], input=inp, timeout=900)
+        outs[v] = out.split("\n")
+        if rc or len(outs[v]) < len(cases):
+            ctx.tie_broken("names-classes-run", "model variant %s rc %s, %d lines of %d" % (v, rc, len(outs[v]), len(cases)))
+            return None
     rci, outi = vlib.sh([hn], input=inp, timeout=900)
-    l0, l1, li = out0.split("\n"), out1.split("\n"), outi.split("\n")
-    if rc0 or rc1 or rci or min(len(l0), len(l1), len(li)) < len(cases):
-        ctx.tie_broken("names-classes-run", "rc model %s/%s harness %s; lines %d/%d/%d of %d" % (rc0, rc1, rci, len(l0), len(l1), len(li), len(cases)))
+    li = outi.split("\n")
+    if rci or len(li) < len(cases):
+        ctx.tie_broken("names-classes-run", "harness rc %s, %d lines of %d" % (rci, len(li), len(cases)))
         return None
-    match = {"0": True, "1": True}
+    match = {v: True for v in outs}
     first = {}
-    for c, a, b, i in zip(cases, l0, l1, li):
-        distinguishing = a != b
+    for k, (c, i) in enumerate(zip(cases, li)):
+        ms = {v: outs[v][k] for v in outs}
+        distinguishing = len(set(ms.values())) > 1
         ctx.case(key=c, nontrivial=(" o" in c), kind="class-ops:" + c[0] + (":variants-differ" if distinguishing else ""),
                  sample=dict(case=c, impl=i[:160]))
-        if i != a:
-            match["0"] = False
-            first.setdefault("0", (c, a, i))
-        if i != b:
-            match["1"] = False
-            first.setdefault("1", (c, b, i))
-    if match["0"]:
-        return "0"
-    if match["1"]:
-        ctx.note("TermNames matches the REPAIRED eraseTermName variant (fx=1) on all %d class-level cases" % len(cases))
-        return "1"
-    c, m, i = first["0"]
+        for v in outs:
+            if i != ms[v]:
+                match[v] = False
+                first.setdefault(v, (c, ms[v], i))
+    for v in ("00", "10", "01", "11"):
+        if match[v]:
+            if v != "00":
+                ctx.note("TermNames matches the model variant erase-repaired=%s pop-guarded=%s on all %d class-level cases" % (v[0], v[1], len(cases)))
+            return v
+    c, m, i = first["00"]
     k = next((j for j, (x, y) in enumerate(zip(m.split(" | "), i.split(" | "))) if x != y), -1)
     ctx.tie_broken("names-classes-correspondence",
                    "case %r: op #%d model(as-is)=%r impl=%r" % (c, k, (m.split(" | ") + [""])[k] if k >= 0 else m[:200], (i.split(" | ") + [""])[k] if k >= 0 else i[:200]),
@@ -182,7 +186,8 @@ def scripts_tie(ctx, exe, hb, erase_variant):
         segs, dumps, rc, tail = nt.run_harness(hb, cmds, g.NF)
         runs.append((g, cmds, segs, dumps, rc, tail))
         lines.append(sg.abstract_line(cmds, nt.answers_of(cmds, segs), g.NF))
-    variant = (erase_variant or "0") + "000"
+    ev = erase_variant or "00"
+    variant = ev[0] + "000" + ev[1]
     models, mrc = nt.run_model(exe, variant, lines)
     if mrc != 0 or len(models) != len(runs):
         ctx.tie_broken("book-model-run", "driver rc=%s, %d results for %d scripts" % (mrc, len(models), len(runs)))
@@ -212,7 +217,7 @@ def scripts_tie(ctx, exe, hb, erase_variant):
         judge_script(ctx, g, cmds, model, bsegs, "history")
 
 
-def toggle_scenario(ctx, exe):
+def toggle_scenario(ctx, exe, ev):
     """:global-declarations switched between a push and its pop: the model says popScope is undefined here
     (toggled_global_pop_refuted); on the binary this shows as a crash."""
     for lg in ("QF_UF", "QF_LRA"):
@@ -222,12 +227,13 @@ def toggle_scenario(ctx, exe):
         cs += [sg.Cmd("(push 1)", "U1", "push"), sg.Cmd("(assert %s)" % t2, "A" + a2, "assert"),
                sg.Cmd("(set-option :global-declarations false)", "Og0", "opt"), sg.Cmd("(pop 1)", "P1", "pop"),
                sg.Cmd("(check-sat)", "C?", "check-sat")]
-        models, _ = nt.run_model(exe, "0000", [sg.abstract_line(cs, ["sat"], g.NF)])
+        guarded = (ev or "00")[1] == "1"
+        models, _ = nt.run_model(exe, (ev or "00")[0] + "000" + (ev or "00")[1], [sg.abstract_line(cs, ["sat"], g.NF)])
         model_ub = bool(models) and any(m[0] == "UB" for m in models[0])
         brc, bsegs, btail, berr = nt.run_binary(cs)
         ctx.case(key="toggle:" + lg, nontrivial=True, kind="global-toggle", sample=dict(script=sg.render(cs), rc=brc, model_undefined=model_ub))
-        if not model_ub:
-            ctx.tie_broken("toggle-model", "model no longer reports undefined behaviour for the toggled pop")
+        if model_ub == guarded:
+            ctx.tie_broken("toggle-model", "model variant %s: undefined behaviour for the toggled pop = %s" % (ev, model_ub))
         crashed = brc < 0 or brc >= 128
         if crashed:
             ctx.violation("global-toggle:pop-crash", "opensmt crashes (rc=%s) when :global-declarations is switched off between (push) and (pop): "
@@ -247,8 +253,9 @@ def run(ctx):
         ctx.tie_broken("harness-build", (l1 if not hn else l2))
         return
     variant = tie_classes(ctx, exe, hn)
-    ctx.extra["eraseTermName_variant"] = {"0": "as is (entry with empty vector kept)", "1": "repaired", None: "unknown"}[variant]
+    ctx.extra["eraseTermName_variant"] = {"0": "as is (entry with empty vector kept)", "1": "repaired", None: "unknown"}[variant[0] if variant else None]
+    ctx.extra["popScope_variant"] = {"0": "as is (undefined without an open scope)", "1": "guarded", None: "unknown"}[variant[1] if variant else None]
     scripts_tie(ctx, exe, hb, variant)
-    toggle_scenario(ctx, exe)
-    if variant == "1":
+    toggle_scenario(ctx, exe, variant)
+    if variant and variant[0] == "1":
         ctx.note("contains_term_repaired applies to the working tree; contains_term_refuted describes the previous code")
